@@ -153,19 +153,19 @@ Proof.
   apply flat_map_ext_in. intros z _. cbn [zone_kept]. apply filter_matches_at_core. exact Hc.
 Qed.
 
-(** with the materialisation guard: nothing that the query's own SINCE would let through is pruned,
-    provided SINCE is at least the guard's timestamp on the CORE timestamp and no segment file is more than a
-    second older than an event it holds *)
-Lemma concat_sources_guard : forall h q l,
+(** with the materialisation guard: among the rows a predicate [p] lets through, nothing is pruned, provided [p]
+    accepts only rows whose CORE timestamp is at least the guard's timestamp (the watermark filter does) and no
+    segment file is more than a second older than an event it holds *)
+Lemma filter_sources_guard : forall (p : event -> bool) h q l,
   q_tf q = TCore ->
   mtime_bad l = false ->
-  (forall e, matches q e = true -> h <= e_ts e) ->
-  concat (sources (Some h) q l) = filter (matches q) (content l).
+  (forall e, p e = true -> h <= e_ts e) ->
+  filter p (concat (sources (Some h) q l)) = filter p (filter (matches q) (content l)).
 Proof.
-  intros h q l Hc Hm Hq. unfold sources, content. rewrite concat_flat_map, filter_flat_map.
+  intros p h q l Hc Hm Hp. unfold sources, content. rewrite concat_flat_map, !filter_flat_map.
   apply flat_map_ext_in. intros s Hs. unfold shard_sources, shard_events. cbn [concat].
-  rewrite app_nil_r, filter_app. f_equal.
-  rewrite filter_flat_map. apply flat_map_ext_in. intros g Hg.
+  rewrite app_nil_r, !filter_app. f_equal.
+  rewrite !filter_flat_map. apply flat_map_ext_in. intros g Hg.
   assert (Hgood : forall e, In e (seg_events g) -> e_ts e <= g_mtime g + 1).
   { intros e He. unfold mtime_bad in Hm.
     destruct (g_mtime g + mat_stale_slack <? e_ts e) eqn:E; [|unfold mat_stale_slack in E; lia].
@@ -175,14 +175,16 @@ Proof.
     congruence. }
   unfold seg_rows, seg_stale, mat_stale_cmp, mat_stale_slack.
   destruct (g_mtime g <? h - 1) eqn:Est.
-  - symmetry. apply filter_none. intros e He. specialize (Hgood e He).
-    destruct (matches q e) eqn:M; [|reflexivity]. specialize (Hq e M). lia.
-  - unfold seg_events. rewrite filter_concat, <- flat_map_concat_map.
+  - cbn [filter]. symmetry. rewrite filter_filter_and. apply filter_none. intros e He. specialize (Hgood e He).
+    destruct (p e) eqn:P; [|apply andb_false_r]. specialize (Hp e P). lia.
+  - unfold seg_events. rewrite filter_flat_map.
+    rewrite (filter_concat (matches q)), (filter_concat p), map_map, <- flat_map_concat_map.
     apply flat_map_ext_in. intros z Hz. unfold zone_kept, zone_tsmax, mat_zone_drop.
-    destruct (max_of e_ts z <? h) eqn:Ez; cbn [negb]; [|apply filter_matches_at_core; exact Hc].
-    symmetry. apply filter_none. intros e He.
-    destruct (matches q e) eqn:M; [|reflexivity]. specialize (Hq e M).
-    pose proof (max_of_ge e_ts z e He). lia.
+    destruct (max_of e_ts z <? h) eqn:Ez; cbn [negb].
+    + cbn [filter]. symmetry. rewrite filter_filter_and. apply filter_none. intros e He.
+      destruct (p e) eqn:P; [|apply andb_false_r]. specialize (Hp e P).
+      pose proof (max_of_ge e_ts z e He). lia.
+    + rewrite filter_matches_at_core by exact Hc. reflexivity.
 Qed.
 
 (** ** Arrival orders *)
@@ -324,7 +326,9 @@ Definition above (q : query) (m : mark) (e : event) : bool := matches q e && mlt
 (** stored rows = the matching events at or below the mark *)
 Definition entry_inv (l : layout) (en : entry) : Prop :=
   core_q (n_q en) /\
-  Permutation (concat (n_frames en)) (filter (below (n_q en) (frames_mark (n_frames en))) (content l)).
+  Permutation (concat (n_frames en)) (filter (below (n_q en) (frames_mark (n_frames en))) (content l)) /\
+  (* the catalog entry's mark never runs ahead of the store's *)
+  mle (n_cat en) (frames_mark (n_frames en)) = true.
 
 Definition Inv (st : state) : Prop :=
   layout_ok (st_layout st) /\
@@ -339,43 +343,41 @@ Proof.
     unfold below, above, mle; [reflexivity|rewrite negb_involutive; reflexivity].
 Qed.
 
-(** the delta query on the core timestamp: SINCE raised to the mark and the watermark filter together
-    select the matching events above the mark *)
-Lemma delta_core : forall q m e, q_tf q = TCore ->
-  matches (delta_query q m) e && wm_pass q m e = above q m e.
+(** the delta query on the core timestamp: SINCE raised to the catalog mark [c] (at most the store's mark [m])
+    and the watermark filter against [m] together select the matching events above [m] *)
+Lemma delta_core : forall q c m e, q_tf q = TCore -> mle c m = true ->
+  matches (delta_query q c) e && wm_pass q m e = above q m e.
 Proof.
-  intros q m e Hc. unfold above, wm_pass, mat_wm_strict, delta_query, tfval. rewrite Hc.
-  destruct (mark_zero m) eqn:Z; [reflexivity|].
+  intros q c m e Hc Hcm. unfold above, wm_pass, mat_wm_strict, delta_query, tfval. rewrite Hc.
+  destruct (mark_zero c) eqn:Z; [reflexivity|].
   unfold matches, matches_at, since_blind, tfval; cbn [q_ctx q_where q_since q_tf andb]. rewrite Hc. fold (ekey e).
   destruct (mlt m (ekey e)) eqn:L; [|rewrite !andb_false_r; reflexivity].
   rewrite !andb_true_r. f_equal.
-  apply mlt_spec in L. unfold ekey in L; cbn [fst snd] in L.
+  apply mlt_spec in L. apply mle_spec in Hcm. unfold ekey in L; cbn [fst snd] in L.
   destruct (q_since q) as [s|].
-  - destruct (s <? fst m) eqn:E; [|reflexivity]. lia.
+  - destruct (s <? fst c) eqn:E; [|reflexivity]. lia.
   - lia.
 Qed.
 
-Lemma delta_since_ge : forall q m e, q_tf q = TCore ->
-  matches (delta_query q m) e = true -> fst m <= e_ts e.
+Lemma wm_pass_ge : forall q m e, q_tf q = TCore -> wm_pass q m e = true -> fst m <= e_ts e.
 Proof.
-  intros q m e Hc. unfold delta_query. destruct (mark_zero m) eqn:Z.
-  - apply mark_zero_spec in Z. subst. cbn [fst]. lia.
-  - unfold matches, matches_at, since_blind, tfval; cbn [q_ctx q_where q_since q_tf andb]. rewrite Hc.
-    rewrite !andb_true_iff. intros [_ H]. destruct (q_since q) as [s|].
-    + destruct (s <? fst m) eqn:E; lia.
-    + lia.
+  intros q m e Hc. unfold wm_pass, mat_wm_strict, tfval. rewrite Hc. intros H. apply mlt_spec in H.
+  cbn [fst snd] in H. lia.
 Qed.
 
-Lemma delta_rows : forall q fs l, q_tf q = TCore -> mtime_bad l = false ->
+Lemma delta_rows : forall q fs c l, q_tf q = TCore -> mtime_bad l = false ->
+  mle c (frames_mark fs) = true ->
   let m := frames_mark fs in
-  concat (map (show_filter q m) (sources (Some (fst m)) (delta_query q m) l))
+  concat (map (show_filter q m) (delta_batches q fs c l))
   = filter (above q m) (content l).
 Proof.
-  intros q fs l Hc Hm m. unfold show_filter, wm_enabled. rewrite Hc.
-  assert (Hc' : q_tf (delta_query q (frames_mark fs)) = TCore).
-  { unfold delta_query. destruct (mark_zero (frames_mark fs)); [exact Hc|exact Hc]. }
-  rewrite <- filter_concat. rewrite concat_sources_guard; [|exact Hc'|exact Hm|intros e; apply delta_since_ge; exact Hc].
-  rewrite filter_filter_and. apply filter_ext. intros e. apply delta_core. exact Hc.
+  intros q fs c l Hc Hm Hcm m. unfold show_filter, wm_enabled, delta_batches.
+  change (filter_mark fs c) with (frames_mark fs). change (since_mark fs c) with c. rewrite Hc.
+  assert (Hc' : q_tf (delta_query q c) = TCore).
+  { unfold delta_query. destruct (mark_zero c); [exact Hc|exact Hc]. }
+  rewrite <- filter_concat. fold m.
+  rewrite filter_sources_guard; [|exact Hc'|exact Hm|intros e; apply wm_pass_ge; exact Hc].
+  rewrite filter_filter_and. apply filter_ext. intros e. apply delta_core; assumption.
 Qed.
 
 Lemma last_app_cons : forall {A} (l : list A) x r d, last (l ++ x :: r) d = last (x :: r) d.
@@ -477,7 +479,8 @@ Proof.
   assert (Hlate : some_late st l = false) by (destruct (some_late st l); [discriminate|reflexivity]).
   assert (Hl' : layout_ok l) by (split; [exact Hd|split; [exact Hm|exact Hz]]).
   cbn [step fst st_layout st_entries]. split; [exact Hl'|].
-  intros name en Hlk. specialize (Hen name en Hlk). destruct Hen as [Hq Hp]. split; [exact Hq|].
+  intros name en Hlk. specialize (Hen name en Hlk). destruct Hen as [Hq [Hp Hcat]]. split; [exact Hq|].
+  split; [|exact Hcat].
   eapply perm_trans; [exact Hp|]. apply below_filter_grow.
   - apply layout_ok_nodup. exact Hl.
   - apply layout_ok_nodup. exact Hl'.
@@ -505,7 +508,8 @@ Proof.
   cbn [fst st_layout st_entries]. split; [exact Hl|].
   intros n en Hlk. cbn [st_entries st_layout] in Hlk |- *. apply in_app_or in Hlk.
   destruct Hlk as [Hlk|[Hlk|[]]]; [apply Hen with n; exact Hlk|].
-  inversion Hlk; subst n en; clear Hlk. split; [split; assumption|]. cbn [n_q n_frames].
+  inversion Hlk; subst n en; clear Hlk. split; [split; assumption|]. cbn [n_q n_frames n_cat].
+  split; [|apply mle_refl].
   unfold remember_frames in R. rewrite Hlim in R.
   destruct (valid_order (sources None q (st_layout st)) (map fst ch)) eqn:V; [|discriminate].
   inversion R; subst fs; clear R.
@@ -517,64 +521,120 @@ Proof.
   rewrite concat_sources_none by exact Htf. apply filter_In. split; assumption.
 Qed.
 
-(** the heart: one SHOW of an entry satisfying the invariant *)
+Lemma Permutation_filter : forall {A} (p : A -> bool) l l', Permutation l l' -> Permutation (filter p l) (filter p l').
+Proof.
+  intros A p l l' H. induction H; cbn [filter].
+  - constructor.
+  - destruct (p x); [constructor|]; assumption.
+  - destruct (p x), (p y); try apply Permutation_refl. apply perm_swap.
+  - eapply perm_trans; eassumption.
+Qed.
+
+Lemma filter_all : forall {A} (p : A -> bool) l, (forall x, In x l -> p x = true) -> filter p l = l.
+Proof.
+  intros A p l H. induction l as [|x l IH]; cbn [filter]; [reflexivity|].
+  rewrite (H x (or_introl eq_refl)). f_equal. apply IH. intros y Hy. apply H. right. exact Hy.
+Qed.
+
+(** the heart: frames [ap] are appended to a store satisfying the invariant; [ap] and [rest] together are the
+    matching events above the old mark, the last frame of [ap] dominates [ap], nothing of [rest] is at or below the
+    new mark: the invariant holds again, and the mark did not move down *)
+Lemma append_frames_inv : forall l q fs ap rest,
+  Permutation (concat fs) (filter (below q (frames_mark fs)) (content l)) ->
+  Permutation (concat ap ++ concat rest) (filter (above q (frames_mark fs)) (content l)) ->
+  (forall f, In f ap -> f <> []) ->
+  (nonempty ap && negb (last_dominates ap) = false) ->
+  strands ap rest = false ->
+  Permutation (concat (fs ++ ap)) (filter (below q (frames_mark (fs ++ ap))) (content l))
+  /\ mle (frames_mark fs) (frames_mark (fs ++ ap)) = true.
+Proof.
+  intros l q fs ap rest Hp Hd Hne Hld Hst.
+  destruct ap as [|f0 r0] eqn:Eap.
+  - rewrite app_nil_r. split; [exact Hp|apply mle_refl].
+  - rewrite <- Eap in *. assert (Hnn : ap <> []) by (rewrite Eap; discriminate).
+    rewrite frames_mark_app by exact Hnn.
+    set (m := frames_mark fs) in *. set (m' := frames_mark ap) in *.
+    assert (Hld' : forall e, In e (concat ap) -> mle (ekey e) m' = true).
+    { assert (X : last_dominates ap = true).
+      { rewrite Eap in Hld. cbn [nonempty andb] in Hld. apply negb_false_iff in Hld. rewrite <- Eap in Hld. exact Hld. }
+      unfold last_dominates in X. rewrite forallb_forall in X. exact X. }
+    assert (Hrest : forall e, In e (concat rest) -> mle (ekey e) m' = false).
+    { intros e He. unfold strands in Hst. rewrite Eap in Hst. cbn [nonempty andb] in Hst. rewrite <- Eap in Hst.
+      destruct (mle (ekey e) m') eqn:X; [|reflexivity]. exfalso.
+      assert (Y : existsb (fun e => mle (ekey e) (frames_mark ap)) (concat rest) = true)
+        by (apply existsb_exists; exists e; split; assumption).
+      congruence. }
+    assert (Hup : mlt m m' = true).
+    { assert (Hin : In (last ap []) ap) by (apply last_In; exact Hnn).
+      pose proof (Hne _ Hin) as Hfne.
+      destruct (last ap []) as [|r rr] eqn:El; [contradiction|].
+      assert (Hr : In r (concat ap ++ concat rest)).
+      { apply in_or_app. left. apply in_concat. exists (r :: rr). split; [exact Hin|left; reflexivity]. }
+      eapply Permutation_in in Hr; [|exact Hd]. apply filter_In in Hr. destruct Hr as [_ Ha].
+      unfold above in Ha. apply andb_true_iff in Ha. destruct Ha as [_ Ha].
+      eapply mlt_mle_trans; [exact Ha|].
+      unfold m'. rewrite (frames_mark_last ap Hnn), El. apply frame_mark_ge. left. reflexivity. }
+    split; [|apply mlt_mle; exact Hup].
+    rewrite concat_app.
+    eapply perm_trans; [|apply Permutation_sym; apply (filter_split_perm (fun e => mle (ekey e) m))].
+    rewrite !filter_filter_and. apply Permutation_app.
+    + eapply perm_trans; [exact Hp|]. apply Permutation_refl'. apply filter_ext. intros e. unfold below.
+      destruct (matches q e); [|reflexivity]. cbn [andb].
+      destruct (mle (ekey e) m) eqn:X; [|rewrite andb_false_r; reflexivity].
+      rewrite (mle_trans _ _ _ X (mlt_mle _ _ Hup)). reflexivity.
+    + (* the matching events above the old mark and at or below the new one are exactly [ap] *)
+      assert (E : filter (fun e => below q m' e && negb (mle (ekey e) m)) (content l)
+                  = filter (fun e => mle (ekey e) m') (filter (above q m) (content l))).
+      { rewrite filter_filter_and. apply filter_ext. intros e. unfold below, above, mle.
+        rewrite negb_involutive. destruct (matches q e); cbn [andb]; [|reflexivity]. apply andb_comm. }
+      rewrite E.
+      eapply perm_trans; [|apply Permutation_filter; exact Hd].
+      rewrite filter_app, (filter_all _ (concat ap)) by exact Hld'.
+      rewrite (filter_none _ (concat rest)) by exact Hrest. rewrite app_nil_r. apply Permutation_refl.
+Qed.
+
+Lemma cat_after_le : forall c m m2, mle c m = true -> mle m m2 = true -> mle (cat_after c m m2) m2 = true.
+Proof.
+  intros c m m2 H1 H2. unfold cat_after. destruct (mark_zero m2); [eapply mle_trans; eassumption|].
+  destruct (mark_eqb m2 m); [eapply mle_trans; eassumption|apply mle_refl].
+Qed.
+
+(** one completed SHOW of an entry satisfying the invariant *)
 Lemma show_step : forall l en ch nf,
   layout_ok l -> entry_inv l en ->
-  show_frames (n_q en) (n_frames en) l ch = Some nf ->
+  show_frames (n_q en) (n_frames en) (n_cat en) l ch = Some nf ->
   (nonempty nf && negb (last_dominates nf) = false) ->
   Permutation (show_output (n_q en) (n_frames en) nf) (sel (n_q en) l)
-  /\ entry_inv l (mkEntry (n_q en) (n_frames en ++ nf))
+  /\ entry_inv l (mkEntry (n_q en) (n_frames en ++ nf)
+                    (cat_after (n_cat en) (frames_mark (n_frames en)) (frames_mark (n_frames en ++ nf))))
   /\ Permutation (concat nf) (filter (above (n_q en) (frames_mark (n_frames en))) (content l)).
 Proof.
-  intros l [q fs] ch nf Hl [[Htf Hlim] Hp] Hs Hld. cbn [n_q n_frames] in *.
-  unfold show_frames in Hs. rewrite Hlim in Hs.
+  intros l [q fs c] ch nf Hl [[Htf Hlim] [Hp Hcat]] Hs Hld. cbn [n_q n_frames n_cat] in *.
+  unfold show_frames in Hs. change (filter_mark fs c) with (frames_mark fs) in Hs. rewrite Hlim in Hs.
   set (m := frames_mark fs) in *.
-  set (fbs := map (show_filter q m) (sources (Some (fst m)) (delta_query q m) l)) in *.
+  set (fbs := map (show_filter q m) (delta_batches q fs c l)) in *.
   destruct (valid_order fbs (map fst ch)) eqn:V; [|discriminate]. inversion Hs; subst nf; clear Hs.
   assert (Hd : Permutation (concat (frames_of fbs (map fst ch))) (filter (above q m) (content l))).
   { eapply perm_trans; [apply valid_order_perm; exact V|]. unfold fbs, m.
-    rewrite delta_rows; [apply Permutation_refl|exact Htf|apply Hl]. }
+    rewrite delta_rows; [apply Permutation_refl|exact Htf|apply Hl|exact Hcat]. }
   split; [|split; [|exact Hd]].
   - unfold show_output, apply_limit, wm_enabled. rewrite Htf, Hlim.
     eapply perm_trans; [|apply Permutation_sym; apply (sel_split q m l)].
     apply Permutation_app; assumption.
-  - split; [split; assumption|]. cbn [n_q n_frames]. rewrite concat_app.
-    destruct (frames_of fbs (map fst ch)) as [|f0 r0] eqn:Enf.
-    + rewrite !app_nil_r. exact Hp.
-    + rewrite <- Enf in *. assert (Hne : frames_of fbs (map fst ch) <> []) by (rewrite Enf; discriminate).
-      rewrite frames_mark_app by exact Hne.
-      set (nf := frames_of fbs (map fst ch)) in *. set (m' := frames_mark nf).
-      assert (Hld' : last_dominates nf = true).
-      { unfold nf in *. rewrite Enf in Hld. cbn [nonempty andb] in Hld. apply negb_false_iff in Hld.
-        rewrite <- Enf in Hld. exact Hld. }
-      unfold last_dominates in Hld'. rewrite forallb_forall in Hld'. fold m' in Hld'.
-      (* the mark moved up *)
-      assert (Hup : mlt m m' = true).
-      { assert (Hin : In (last nf []) nf) by (apply last_In; exact Hne).
-        pose proof (valid_order_nonempty _ _ _ V Hin) as Hfne.
-        destruct (last nf []) as [|r rr] eqn:El; [contradiction|].
-        assert (Hr : In r (concat nf)) by (apply in_concat; exists (r :: rr); split; [exact Hin|left; reflexivity]).
-        assert (Ha : above q m r = true).
-        { eapply Permutation_in in Hr; [|exact Hd]. apply filter_In in Hr. apply Hr. }
-        unfold above in Ha. apply andb_true_iff in Ha. destruct Ha as [_ Ha].
-        eapply mlt_mle_trans; [exact Ha|].
-        unfold m'. rewrite (frames_mark_last nf Hne), El.
-        apply frame_mark_ge. left. reflexivity. }
-      eapply perm_trans; [apply Permutation_app; [exact Hp|exact Hd]|].
-      eapply perm_trans; [apply Permutation_sym; apply (sel_split q m l)|].
-      unfold sel. apply Permutation_refl'. apply filter_ext_in. intros e He.
-      unfold below. destruct (matches q e) eqn:M; [|reflexivity]. cbn [andb]. symmetry.
-      destruct (mlt m (ekey e)) eqn:A.
-      * apply Hld'. eapply Permutation_in; [apply Permutation_sym; exact Hd|].
-        apply filter_In. split; [exact He|]. unfold above. rewrite M, A. reflexivity.
-      * eapply mle_trans; [|apply mlt_mle; exact Hup]. unfold mle. rewrite A. reflexivity.
+  - destruct (append_frames_inv l q fs (frames_of fbs (map fst ch)) [] Hp) as [Hinv Hle].
+    + cbn [concat]. rewrite app_nil_r. exact Hd.
+    + intros f Hf. eapply valid_order_nonempty; eassumption.
+    + exact Hld.
+    + unfold strands. cbn [concat existsb]. apply andb_false_r.
+    + split; [split; assumption|]. cbn [n_q n_frames n_cat]. split; [exact Hinv|].
+      apply cat_after_le; assumption.
 Qed.
 
 Lemma inv_show : forall st name ch, Inv st -> good_op st (OShow name ch) -> Inv (fst (step st (OShow name ch))).
 Proof.
   intros st name ch [Hl Hen] [Hc _]. cbn [classes_of step] in *.
   destruct (lookup name (st_entries st)) as [en|] eqn:Lk; [|split; assumption].
-  destruct (show_frames (n_q en) (n_frames en) (st_layout st) ch) as [nf|] eqn:S; [|split; assumption].
+  destruct (show_frames (n_q en) (n_frames en) (n_cat en) (st_layout st) ch) as [nf|] eqn:S; [|split; assumption].
   assert (Hld : nonempty nf && negb (last_dominates nf) = false).
   { destruct (nonempty nf && negb (last_dominates nf)); [discriminate|reflexivity]. }
   destruct (show_step _ _ _ _ Hl (Hen _ _ (lookup_In _ _ _ Lk)) S Hld) as [_ [Hinv _]].
@@ -583,12 +643,111 @@ Proof.
   destruct Hlk as [Hlk|[_ Hlk]]; [apply Hen with n; exact Hlk|subst en'; exact Hinv].
 Qed.
 
+(** ** An interrupted SHOW *)
+
+Lemma seqN_In : forall n j, In j (seqN n) <-> j < N.of_nat n.
+Proof.
+  intros n j. unfold seqN. rewrite in_map_iff. split.
+  - intros [i [<- Hi]]. apply in_seq in Hi. lia.
+  - intros H. exists (N.to_nat j). split; [lia|]. apply in_seq. lia.
+Qed.
+
+Lemma seqN_NoDup : forall n, NoDup (seqN n).
+Proof. intros n. unfold seqN. apply FinFun.Injective_map_NoDup; [intros a b H; lia|apply seq_NoDup]. Qed.
+
+Lemma concat_nthN_seqN : forall (bs : list (list event)),
+  concat bs = concat (map (fun j => nthN bs j []) (seqN (length bs))).
+Proof.
+  intros bs. unfold seqN, nthN. rewrite map_map.
+  transitivity (concat (map (fun i => nth i bs ([] : list event)) (seq 0 (length bs)))).
+  - rewrite map_nth_seq. reflexivity.
+  - apply (f_equal (@concat event)). apply map_ext. intros i. rewrite Nnat.Nat2N.id. reflexivity.
+Qed.
+
+Lemma concat_rest_of : forall (fbs : list (list event)) ord js,
+  concat (flat_map (fun j => if memN j ord then [] else let b := nthN fbs j [] in if nonempty b then [b] else []) js)
+  = concat (map (fun j => nthN fbs j []) (filter (fun j => negb (memN j ord)) js)).
+Proof.
+  intros fbs ord js.
+  remember (fun j => if memN j ord then [] else let b := nthN fbs j [] in if nonempty b then [b] else []) as F eqn:EF.
+  induction js as [|j js IH]; [reflexivity|].
+  cbn [flat_map filter]. rewrite concat_app, IH. subst F. cbv beta.
+  destruct (memN j ord); cbn [negb map concat app]; [reflexivity|].
+  f_equal. destruct (nthN fbs j []); cbn [nonempty concat]; [reflexivity|apply app_nil_r].
+Qed.
+
+(** the appended frames and the left-out ones are, together, the delta *)
+Lemma valid_prefix_split : forall fbs ord, valid_prefix fbs ord = true ->
+  Permutation (concat (frames_of fbs ord) ++ concat (rest_of fbs ord)) (concat fbs).
+Proof.
+  intros fbs ord H. unfold valid_prefix in H. apply andb_true_iff in H. destruct H as [H1 H2].
+  apply nodupN_NoDup in H1. rewrite forallb_forall in H2.
+  unfold rest_of. rewrite concat_rest_of, (concat_nthN_seqN fbs) at 1.
+  set (g := fun j : N => nthN fbs j ([] : list event)).
+  set (js := seqN (length fbs)).
+  apply Permutation_sym.
+  eapply perm_trans; [apply Permutation_concat; apply Permutation_map; apply (filter_split_perm (fun j => memN j ord))|].
+  rewrite map_app, concat_app. apply Permutation_app; [|apply Permutation_refl].
+  unfold frames_of. fold g. apply Permutation_concat. apply Permutation_map.
+  apply NoDup_Permutation; [apply NoDup_filter; apply seqN_NoDup|exact H1|].
+  intros j. rewrite filter_In, memN_In. unfold js. rewrite seqN_In. split; [tauto|].
+  intros Hj. split; [|exact Hj]. specialize (H2 j Hj). apply andb_true_iff in H2. destruct H2 as [H2 _].
+  unfold lenN in H2. lia.
+Qed.
+
+Lemma valid_prefix_nonempty : forall fbs ord f, valid_prefix fbs ord = true -> In f (frames_of fbs ord) -> f <> [].
+Proof.
+  intros fbs ord f H Hin. unfold valid_prefix in H. apply andb_true_iff in H. destruct H as [_ H2].
+  rewrite forallb_forall in H2. unfold frames_of in Hin. apply in_map_iff in Hin. destruct Hin as [j [<- Hj]].
+  specialize (H2 j Hj). apply andb_true_iff in H2. destruct H2 as [_ H2].
+  destruct (nthN fbs j []); [discriminate|discriminate].
+Qed.
+
+Lemma showfail_step : forall l en ch ap rest,
+  layout_ok l -> entry_inv l en ->
+  show_fail_frames (n_q en) (n_frames en) (n_cat en) l ch = Some (ap, rest) ->
+  (nonempty ap && negb (last_dominates ap) = false) ->
+  strands ap rest = false ->
+  entry_inv l (mkEntry (n_q en) (n_frames en ++ ap) (n_cat en)).
+Proof.
+  intros l [q fs c] ch ap rest Hl [[Htf Hlim] [Hp Hcat]] Hs Hld Hst. cbn [n_q n_frames n_cat] in *.
+  unfold show_fail_frames in Hs. change (filter_mark fs c) with (frames_mark fs) in Hs. rewrite Hlim in Hs.
+  set (m := frames_mark fs) in *.
+  set (fbs := map (show_filter q m) (delta_batches q fs c l)) in *.
+  destruct (valid_prefix fbs (map fst ch)) eqn:V; [|discriminate]. inversion Hs; subst ap rest; clear Hs.
+  destruct (append_frames_inv l q fs (frames_of fbs (map fst ch)) (rest_of fbs (map fst ch)) Hp) as [Hinv Hle].
+  - eapply perm_trans; [apply valid_prefix_split; exact V|]. unfold fbs, m.
+    rewrite delta_rows; [apply Permutation_refl|exact Htf|apply Hl|exact Hcat].
+  - intros f Hf. eapply valid_prefix_nonempty; eassumption.
+  - exact Hld.
+  - exact Hst.
+  - split; [split; assumption|]. cbn [n_q n_frames n_cat]. split; [exact Hinv|].
+    eapply mle_trans; eassumption.
+Qed.
+
+Lemma inv_showfail : forall st name ch, Inv st -> good_op st (OShowFail name ch) ->
+  Inv (fst (step st (OShowFail name ch))).
+Proof.
+  intros st name ch [Hl Hen] [Hc _]. cbn [classes_of step] in *.
+  destruct (lookup name (st_entries st)) as [en|] eqn:Lk; [|split; assumption].
+  destruct (show_fail_frames (n_q en) (n_frames en) (n_cat en) (st_layout st) ch) as [[ap rest]|] eqn:S; [|split; assumption].
+  apply app_eq_nil in Hc. destruct Hc as [Hc1 Hc2].
+  assert (Hld : nonempty ap && negb (last_dominates ap) = false).
+  { destruct (nonempty ap && negb (last_dominates ap)); [discriminate|reflexivity]. }
+  assert (Hst : strands ap rest = false) by (destruct (strands ap rest); [discriminate|reflexivity]).
+  pose proof (showfail_step _ _ _ _ _ Hl (Hen _ _ (lookup_In _ _ _ Lk)) S Hld Hst) as Hinv.
+  cbn [fst st_layout st_entries]. split; [exact Hl|].
+  intros n en' Hlk. cbn [st_entries st_layout] in Hlk |- *. apply update_In in Hlk.
+  destruct Hlk as [Hlk|[_ Hlk]]; [apply Hen with n; exact Hlk|subst en'; exact Hinv].
+Qed.
+
 Lemma step_inv : forall st o, Inv st -> good_op st o -> Inv (fst (step st o)).
 Proof.
-  intros st [l|name q ch|name ch] Hi Hg.
+  intros st [l|name q ch|name ch|name ch] Hi Hg.
   - apply inv_setlayout; assumption.
   - apply inv_remember; assumption.
   - apply inv_show; assumption.
+  - apply inv_showfail; assumption.
 Qed.
 
 Lemma inv_init : Inv init.
@@ -664,7 +823,7 @@ Qed.
 (** every SHOW of the history returned an answer of the live query of that moment *)
 Definition show_ok (st : state) (o : op) : Prop :=
   match o, snd (step st o) with
-  | OShow name _, ObsShow out _ _ =>
+  | OShow name _, ObsShow out _ _ _ =>
       match lookup name (st_entries st) with
       | Some en => is_answer (n_q en) (st_layout st) out
       | None => False
@@ -679,7 +838,7 @@ Fixpoint shows_ok (st : state) (ops : list op) : Prop :=
 
 Definition show_ok_b (st : state) (o : op) : bool :=
   match o, snd (step st o) with
-  | OShow name _, ObsShow out _ _ =>
+  | OShow name _, ObsShow out _ _ _ =>
       match lookup name (st_entries st) with
       | Some en => is_answer_b (n_q en) (st_layout st) out
       | None => false
@@ -715,17 +874,18 @@ Proof.
   exfalso. apply (H c). left. reflexivity.
 Qed.
 
-Lemma step_show_inv : forall st name ch st' out nf m,
-  step st (OShow name ch) = (st', ObsShow out nf m) ->
+Lemma step_show_inv : forall st name ch st' out nf m c,
+  step st (OShow name ch) = (st', ObsShow out nf m c) ->
   exists en, lookup name (st_entries st) = Some en /\
-    show_frames (n_q en) (n_frames en) (st_layout st) ch = Some nf /\
+    show_frames (n_q en) (n_frames en) (n_cat en) (st_layout st) ch = Some nf /\
     out = show_output (n_q en) (n_frames en) nf /\
     m = frames_mark (n_frames en ++ nf) /\
-    st' = mkState (st_layout st) (update name (mkEntry (n_q en) (n_frames en ++ nf)) (st_entries st)).
+    c = cat_after (n_cat en) (frames_mark (n_frames en)) m /\
+    st' = mkState (st_layout st) (update name (mkEntry (n_q en) (n_frames en ++ nf) c) (st_entries st)).
 Proof.
-  intros st name ch st' out nf m H. cbn [step] in H.
+  intros st name ch st' out nf m c H. cbn [step] in H.
   destruct (lookup name (st_entries st)) as [en|]; [|inversion H].
-  destruct (show_frames (n_q en) (n_frames en) (st_layout st) ch) as [nf'|] eqn:Sf; [|inversion H].
+  destruct (show_frames (n_q en) (n_frames en) (n_cat en) (st_layout st) ch) as [nf'|] eqn:Sf; [|inversion H].
   inversion H; subst. exists en. repeat split; try reflexivity. exact Sf.
 Qed.
 
@@ -733,30 +893,30 @@ Qed.
     leaves a good mark matters for the NEXT SHOW) *)
 Lemma show_out_correct : forall l en ch nf,
   layout_ok l -> entry_inv l en ->
-  show_frames (n_q en) (n_frames en) l ch = Some nf ->
+  show_frames (n_q en) (n_frames en) (n_cat en) l ch = Some nf ->
   Permutation (show_output (n_q en) (n_frames en) nf) (sel (n_q en) l).
 Proof.
-  intros l [q fs] ch nf Hl [[Htf Hlim] Hp] Hs. cbn [n_q n_frames] in *.
-  unfold show_frames in Hs. rewrite Hlim in Hs.
+  intros l [q fs c] ch nf Hl [[Htf Hlim] [Hp Hcat]] Hs. cbn [n_q n_frames n_cat] in *.
+  unfold show_frames in Hs. change (filter_mark fs c) with (frames_mark fs) in Hs. rewrite Hlim in Hs.
   set (m := frames_mark fs) in *.
-  set (fbs := map (show_filter q m) (sources (Some (fst m)) (delta_query q m) l)) in *.
+  set (fbs := map (show_filter q m) (delta_batches q fs c l)) in *.
   destruct (valid_order fbs (map fst ch)) eqn:V; [|discriminate]. inversion Hs; subst nf; clear Hs.
   assert (Hd : Permutation (concat (frames_of fbs (map fst ch))) (filter (above q m) (content l))).
   { eapply perm_trans; [apply valid_order_perm; exact V|]. unfold fbs, m.
-    rewrite delta_rows; [apply Permutation_refl|exact Htf|apply Hl]. }
+    rewrite delta_rows; [apply Permutation_refl|exact Htf|apply Hl|exact Hcat]. }
   unfold show_output, apply_limit, wm_enabled. rewrite Htf, Hlim.
   eapply perm_trans; [|apply Permutation_sym; apply (sel_split q m l)].
   apply Permutation_app; assumption.
 Qed.
 
-Theorem show_eq_query_reach : forall st name ch st' out nf m,
+Theorem show_eq_query_reach : forall st name ch st' out nf m c,
   reach st ->
-  step st (OShow name ch) = (st', ObsShow out nf m) ->
+  step st (OShow name ch) = (st', ObsShow out nf m c) ->
   exists en, lookup name (st_entries st) = Some en /\
     Permutation out (sel (n_q en) (st_layout st)) /\ NoDup (map e_k out).
 Proof.
-  intros st name ch st' out nf m Hr Hs. pose proof (reach_inv _ Hr) as [Hl Hen].
-  destruct (step_show_inv _ _ _ _ _ _ _ Hs) as [en [Lk [Sf [Eo _]]]].
+  intros st name ch st' out nf m c Hr Hs. pose proof (reach_inv _ Hr) as [Hl Hen].
+  destruct (step_show_inv _ _ _ _ _ _ _ _ Hs) as [en [Lk [Sf [Eo _]]]].
   exists en. split; [exact Lk|].
   pose proof (show_out_correct _ _ _ _ Hl (Hen _ _ (lookup_In _ _ _ Lk)) Sf) as Hp. rewrite <- Eo in Hp.
   split; [exact Hp|].
@@ -764,15 +924,15 @@ Proof.
   unfold sel. apply NoDup_map_filter. apply layout_ok_nodup_keys. exact Hl.
 Qed.
 
-Theorem show_eq_query_core : forall st name ch st' out nf m,
+Theorem show_eq_query_core : forall st name ch st' out nf m c,
   reach st ->
   classes_of st (OShow name ch) = [] ->
-  step st (OShow name ch) = (st', ObsShow out nf m) ->
+  step st (OShow name ch) = (st', ObsShow out nf m c) ->
   exists en, lookup name (st_entries st) = Some en /\
     Permutation out (sel (n_q en) (st_layout st)) /\ NoDup (map e_k out).
 Proof.
-  intros st name ch st' out nf m Hr Hc Hs. pose proof (reach_inv _ Hr) as [Hl Hen].
-  destruct (step_show_inv _ _ _ _ _ _ _ Hs) as [en [Lk [Sf [Eo _]]]].
+  intros st name ch st' out nf m c Hr Hc Hs. pose proof (reach_inv _ Hr) as [Hl Hen].
+  destruct (step_show_inv _ _ _ _ _ _ _ _ Hs) as [en [Lk [Sf [Eo _]]]].
   exists en. split; [exact Lk|]. cbn [classes_of] in Hc. rewrite Lk, Sf in Hc.
   assert (Hld : nonempty nf && negb (last_dominates nf) = false).
   { destruct (nonempty nf && negb (last_dominates nf)); [discriminate|reflexivity]. }
@@ -786,31 +946,34 @@ Theorem show_eq_query_outside_known : forall ops st, reach st -> no_known st ops
 Proof.
   induction ops as [|o r IH]; intros st Hr; cbn [no_known shows_ok]; [trivial|].
   intros [Hg Hn]. split; [|apply IH; [apply reach_step; assumption|exact Hn]].
-  unfold show_ok. destruct o as [l|name q ch|name ch]; try exact I.
+  unfold show_ok. destruct o as [l|name q ch|name ch|name ch]; try exact I.
   destruct (step st (OShow name ch)) as [st' ob] eqn:Hs. cbn [snd].
-  destruct ob as [| | |out nf m| |]; try exact I.
-  destruct (show_eq_query_core _ _ _ _ _ _ _ Hr (proj1 Hg) Hs) as [en [Lk [Hp _]]]. rewrite Lk.
+  destruct ob as [| | |out nf m c| | |]; try exact I.
+  destruct (show_eq_query_core _ _ _ _ _ _ _ _ Hr (proj1 Hg) Hs) as [en [Lk [Hp _]]]. rewrite Lk.
   pose proof (reach_inv _ Hr) as [Hl Hen]. apply perm_is_answer; [exact Hl|apply (Hen _ _ (lookup_In _ _ _ Lk))|exact Hp].
 Qed.
 
 (** a second SHOW with no new data in between returns the same rows and appends nothing *)
-Theorem show_idempotent : forall st name ch1 ch2 st1 out1 nf1 m1 st2 out2 nf2 m2,
+Lemma mark_eqb_refl : forall m, mark_eqb m m = true.
+Proof. intros [a b]. unfold mark_eqb; cbn [fst snd]. rewrite !N.eqb_refl. reflexivity. Qed.
+
+Theorem show_idempotent : forall st name ch1 ch2 st1 out1 nf1 m1 c1 st2 out2 nf2 m2 c2,
   reach st -> good_op st (OShow name ch1) ->
-  step st (OShow name ch1) = (st1, ObsShow out1 nf1 m1) ->
+  step st (OShow name ch1) = (st1, ObsShow out1 nf1 m1 c1) ->
   classes_of st1 (OShow name ch2) = [] ->
-  step st1 (OShow name ch2) = (st2, ObsShow out2 nf2 m2) ->
-  Permutation out2 out1 /\ nf2 = [] /\ m2 = m1.
+  step st1 (OShow name ch2) = (st2, ObsShow out2 nf2 m2 c2) ->
+  Permutation out2 out1 /\ nf2 = [] /\ m2 = m1 /\ c2 = c1.
 Proof.
-  intros st name ch1 ch2 st1 out1 nf1 m1 st2 out2 nf2 m2 Hr Hg H1 Hc2 H2.
+  intros st name ch1 ch2 st1 out1 nf1 m1 c1 st2 out2 nf2 m2 c2 Hr Hg H1 Hc2 H2.
   assert (Hr1 : reach st1).
   { replace st1 with (fst (step st (OShow name ch1))) by (rewrite H1; reflexivity). apply reach_step; assumption. }
-  destruct (show_eq_query_core _ _ _ _ _ _ _ Hr (proj1 Hg) H1) as [en [Lk [Hp1 _]]].
-  destruct (show_eq_query_core _ _ _ _ _ _ _ Hr1 Hc2 H2) as [en1 [Lk1 [Hp2 _]]].
-  destruct (step_show_inv _ _ _ _ _ _ _ H1) as [en' [Lk' [Sf1 [Eo1 [Em1 Est1]]]]].
+  destruct (show_eq_query_core _ _ _ _ _ _ _ _ Hr (proj1 Hg) H1) as [en [Lk [Hp1 _]]].
+  destruct (show_eq_query_core _ _ _ _ _ _ _ _ Hr1 Hc2 H2) as [en1 [Lk1 [Hp2 _]]].
+  destruct (step_show_inv _ _ _ _ _ _ _ _ H1) as [en' [Lk' [Sf1 [Eo1 [Em1 [Ec1 Est1]]]]]].
   rewrite Lk in Lk'. inversion Lk'; subst en'; clear Lk'.
-  destruct (step_show_inv _ _ _ _ _ _ _ H2) as [en1' [Lk1' [Sf2 [Eo2 [Em2 _]]]]].
+  destruct (step_show_inv _ _ _ _ _ _ _ _ H2) as [en1' [Lk1' [Sf2 [Eo2 [Em2 [Ec2 _]]]]]].
   rewrite Lk1 in Lk1'. inversion Lk1'; subst en1'; clear Lk1'.
-  assert (Een1 : en1 = mkEntry (n_q en) (n_frames en ++ nf1)).
+  assert (Een1 : en1 = mkEntry (n_q en) (n_frames en ++ nf1) c1).
   { rewrite Est1 in Lk1. cbn [st_entries] in Lk1. rewrite lookup_update, N.eqb_refl, Lk in Lk1. inversion Lk1. reflexivity. }
   assert (Hlay : st_layout st1 = st_layout st) by (rewrite Est1; reflexivity).
   pose proof (reach_inv _ Hr1) as [Hl1 Hen1]. specialize (Hen1 _ _ (lookup_In _ _ _ Lk1)).
@@ -820,7 +983,7 @@ Proof.
   destruct (show_step _ _ _ _ Hl1 Hen1 Sf2 Hld) as [_ [_ Hd]].
   assert (Hnf2 : nf2 = []).
   { (* nothing is above the mark: everything matching is already stored *)
-    destruct Hen1 as [_ Hst]. rewrite Een1 in Hst, Hd. cbn [n_q n_frames] in Hst, Hd.
+    destruct Hen1 as [_ [Hst _]]. rewrite Een1 in Hst, Hd. cbn [n_q n_frames] in Hst, Hd.
     pose proof (sel_split (n_q en) (frames_mark (n_frames en ++ nf1)) (st_layout st1)) as Hsp.
     assert (Hlen : length (concat nf2) = 0%nat).
     { apply Permutation_length in Hsp, Hst, Hd. rewrite app_length in Hsp.
@@ -830,16 +993,67 @@ Proof.
         apply Permutation_length. exact Hp1. }
       lia. }
     destruct nf2 as [|f r]; [reflexivity|]. exfalso.
-    unfold show_frames in Sf2. rewrite Een1 in Sf2. cbn [n_q n_frames] in Sf2.
+    unfold show_frames in Sf2. rewrite Een1 in Sf2. cbn [n_q n_frames n_cat] in Sf2.
+    change (filter_mark (n_frames en ++ nf1) c1) with (frames_mark (n_frames en ++ nf1)) in Sf2.
     pose proof (reach_inv _ Hr) as [_ Hen0]. destruct (Hen0 _ _ (lookup_In _ _ _ Lk)) as [[_ Hlim] _]. rewrite Hlim in Sf2.
     match type of Sf2 with (if valid_order ?b ?o then _ else _) = _ => destruct (valid_order b o) eqn:V; [|discriminate] end.
     inversion Sf2 as [Hfr].
     assert (Hf : f <> []).
     { eapply valid_order_nonempty; [exact V|]. rewrite Hfr. left. reflexivity. }
     cbn [concat] in Hlen. rewrite app_length in Hlen. destruct f; [contradiction|cbn [length] in Hlen; lia]. }
-  split; [|split; [exact Hnf2|]].
+  assert (Hm : m2 = m1) by (rewrite Em2, Em1, Een1, Hnf2, app_nil_r; reflexivity).
+  split; [|split; [exact Hnf2|split; [exact Hm|]]].
   - eapply perm_trans; [exact Hp2|]. rewrite Een1, Hlay. cbn [n_q]. apply Permutation_sym. exact Hp1.
-  - rewrite Em2, Em1, Een1, Hnf2, app_nil_r. reflexivity.
+  - rewrite Ec2, Hm, Een1. cbn [n_cat n_frames]. rewrite <- Em1. unfold cat_after.
+    rewrite mark_eqb_refl. destruct (mark_zero m1); reflexivity.
+Qed.
+
+(** ** A SHOW whose delivery failed, then a healthy SHOW *)
+
+Lemma step_showfail_inv : forall st name ch st' ap m c,
+  step st (OShowFail name ch) = (st', ObsShowFailed ap m c) ->
+  exists en rest, lookup name (st_entries st) = Some en /\
+    show_fail_frames (n_q en) (n_frames en) (n_cat en) (st_layout st) ch = Some (ap, rest) /\
+    m = frames_mark (n_frames en ++ ap) /\ c = n_cat en /\
+    st' = mkState (st_layout st) (update name (mkEntry (n_q en) (n_frames en ++ ap) (n_cat en)) (st_entries st)).
+Proof.
+  intros st name ch st' ap m c H. cbn [step] in H.
+  destruct (lookup name (st_entries st)) as [en|]; [|inversion H].
+  destruct (show_fail_frames (n_q en) (n_frames en) (n_cat en) (st_layout st) ch) as [[ap' rest]|] eqn:Sf; [|inversion H].
+  inversion H; subst. exists en, rest. split; [reflexivity|]. split; [exact Sf|]. repeat split; reflexivity.
+Qed.
+
+(** The failed SHOW appended frames and left the catalog entry's mark where it was; whatever selection of the
+    delta batches it appended (outside the known classes), the next SHOW — after any further good operations —
+    returns exactly the live selection, each event once. *)
+Theorem failed_show_then_show_exact : forall st name ch1 st1 ap m1 c1 ops st2 name2 ch2 st3 out nf m c,
+  reach st -> good_op st (OShowFail name ch1) ->
+  step st (OShowFail name ch1) = (st1, ObsShowFailed ap m1 c1) ->
+  no_known st1 ops -> st2 = fold_left (fun s o => fst (step s o)) ops st1 ->
+  step st2 (OShow name2 ch2) = (st3, ObsShow out nf m c) ->
+  exists en, lookup name2 (st_entries st2) = Some en /\
+    Permutation out (sel (n_q en) (st_layout st2)) /\ NoDup (map e_k out).
+Proof.
+  intros st name ch1 st1 ap m1 c1 ops st2 name2 ch2 st3 out nf m c Hr Hg H1 Hn E2 H3.
+  assert (Hr1 : reach st1).
+  { replace st1 with (fst (step st (OShowFail name ch1))) by (rewrite H1; reflexivity). apply reach_step; assumption. }
+  assert (Hr2 : reach st2).
+  { subst st2. clear H3 H1. revert st1 Hr1 Hn. induction ops as [|o r IH]; intros s Hs Hn; cbn [fold_left]; [exact Hs|].
+    destruct Hn as [Hg1 Hn]. apply IH; [apply reach_step; assumption|exact Hn]. }
+  eapply show_eq_query_reach; eassumption.
+Qed.
+
+(** what the failed SHOW leaves behind: the store's mark moved to the last appended frame, the catalog's did not *)
+Theorem failed_show_state : forall st name ch st' ap m c en,
+  lookup name (st_entries st) = Some en ->
+  step st (OShowFail name ch) = (st', ObsShowFailed ap m c) ->
+  c = n_cat en /\ m = frames_mark (n_frames en ++ ap) /\
+  lookup name (st_entries st') = Some (mkEntry (n_q en) (n_frames en ++ ap) (n_cat en)).
+Proof.
+  intros st name ch st' ap m c en Lk H.
+  destruct (step_showfail_inv _ _ _ _ _ _ _ H) as [en' [rest [Lk' [_ [Em [Ec Est]]]]]].
+  rewrite Lk in Lk'. inversion Lk'; subst en'. split; [exact Ec|split; [exact Em|]].
+  rewrite Est. cbn [st_entries]. rewrite lookup_update, N.eqb_refl, Lk. reflexivity.
 Qed.
 
 Theorem remember_dup_rejected : forall st name q ch en,
@@ -889,7 +1103,7 @@ Proof.
   assert (Hid : 0 < e_id e).
   { unfold zero_id in Hz. destruct (e_id e =? 0) eqn:Z; [|lia]. exfalso.
     assert (X : existsb (fun e => e_id e =? 0) (content l) = true) by (apply existsb_exists; exists e; auto). congruence. }
-  destruct (Hen name en Hin) as [_ Hp].
+  destruct (Hen name en Hin) as [_ [Hp _]].
   apply mle_spec in Hmle. unfold ekey in Hmle; cbn [fst snd] in Hmle.
   destruct (n_frames en) as [|f0 r0] eqn:Ef.
   - cbn in Hmle. lia.
@@ -995,6 +1209,15 @@ Definition w_mtime : list op :=
     OSetLayout [mkShard [] [mkSeg 50 [[ev 1 100 0 100; ev 2 110 0 200]]]];
     OShow 1 [] ].
 
+(** (7) InterruptedRefresh — the client hangs up during a SHOW whose delta arrives in two batches; the delta task
+    is aborted after it appended the memtable batch (the newer event) and before the segment batch (the older one):
+    the store's mark is now above the older event, no later SHOW delivers it. *)
+Definition w_interrupted : list op :=
+  [ ORemember 1 q_all [];
+    OSetLayout [mkShard [ev 2 20 0 200] [mkSeg 20 [[ev 1 10 0 100]]]];
+    OShowFail 1 [(0, [])];
+    OShow 1 [] ].
+
 Lemma refuted_by : forall ops, shows_ok_b init ops = false -> ~ shows_ok init ops.
 Proof. intros ops H Hs. apply shows_ok_b_spec in Hs. congruence. Qed.
 
@@ -1029,6 +1252,9 @@ Proof. witness. Qed.
 Theorem show_eq_query_refuted_mtime : witness_of SegmentOlderThanEvent w_mtime.
 Proof. witness. Qed.
 
+Theorem show_eq_query_refuted_interrupted : witness_of InterruptedRefresh w_interrupted.
+Proof. witness. Qed.
+
 Theorem show_eq_query_refuted : exists ops, side_ok init ops = true /\ ~ shows_ok init ops.
 Proof. exists w_lastframe. destruct show_eq_query_refuted_lastframe as [H [_ [_ H']]]. split; assumption. Qed.
 
@@ -1058,8 +1284,40 @@ Example ex_no_known : no_known init ex_ops.
 Proof. cbn [no_known ex_ops]. repeat split; vm_compute; reflexivity. Qed.
 
 Example ex_outputs :
-  map (fun o => match o with ObsShow out _ _ => map e_k out | ObsRejected => [99] | _ => [] end) (run init ex_ops)
+  map (fun o => match o with ObsShow out _ _ _ => map e_k out | ObsRejected => [99] | _ => [] end) (run init ex_ops)
   = [[]; []; [99]; []; [1; 3]; []; [1; 3; 4]; [1; 3; 4]; []; [1; 3; 4; 6]].
+Proof. vm_compute. reflexivity. Qed.
+
+(** … and with failed SHOWs: one that appended nothing new, one that appended its whole delta (the usual case: the
+    response is buffered and fails at the final flush), one that appended only the older of two batches; the
+    catalog mark stays behind the store's mark, every later SHOW is exact. *)
+Definition y1 := ev 1 10 0 100.
+Definition y2 := ev 2 11 0 200.
+Definition y3 := ev 3 12 0 300.
+Definition y4 := ev 4 13 0 400.
+Definition ex_fail_ops : list op :=
+  [ OSetLayout [mkShard [y1] []];
+    ORemember 1 q_all [(0, [])];
+    OShowFail 1 [];
+    OSetLayout [mkShard [y1; y2] []];
+    OShowFail 1 [(0, [])];
+    OShow 1 [];
+    OSetLayout [mkShard [y4] [mkSeg 12 [[y1; y2; y3]]]];
+    OShowFail 1 [(1, [])];
+    OShow 1 [(0, [])];
+    OShow 1 [] ].
+
+Example ex_fail_no_known : no_known init ex_fail_ops.
+Proof. cbn [no_known ex_fail_ops]. repeat split; vm_compute; reflexivity. Qed.
+
+Example ex_fail_outputs :
+  map (fun o => match o with
+                | ObsShow out _ m c => (map e_k out, m, c)
+                | ObsShowFailed ap m c => (map e_k (concat ap), m, c)
+                | _ => ([], (0, 0), (0, 0)) end) (run init ex_fail_ops)
+  = [ ([], (0, 0), (0, 0)); ([], (0, 0), (0, 0)); ([], (10, 100), (10, 100)); ([], (0, 0), (0, 0));
+      ([2], (11, 200), (10, 100)); ([1; 2], (11, 200), (10, 100)); ([], (0, 0), (0, 0));
+      ([3], (12, 300), (10, 100)); ([1; 2; 3; 4], (13, 400), (13, 400)); ([1; 2; 3; 4], (13, 400), (13, 400)) ].
 Proof. vm_compute. reflexivity. Qed.
 
 Example ex_reach : reach (fst (step init (OSetLayout [mkShard [x2] []; mkShard [x1] []]))).
